@@ -44,6 +44,24 @@ def variants_pattern(seq):
             yield "spelling%d" % k, s2, four
 
 
+def variants_medium(seq):
+    """Fewer variants for medium-size irregular sequences: reversal, inversion, four all-site respellings, every 4th site."""
+    four = ("kappa", "delta", "deltaMax", "SCD")
+    five = four + ("Omega",)
+    yield "reversal", seq[::-1], five
+    yield "inversion", swap_charge(seq), five
+    pat = R.pattern_of(seq)
+    for k in (1, 6, 11, 15):
+        s2 = R.spell_covering(pat, k)
+        if s2 != seq:
+            yield "spelling%d" % k, s2, four
+    for i in range(len(seq) % 4, len(seq), 4):
+        a = seq[i]
+        alts = "KR".replace(a, "") if a in "KR" else ("DE".replace(a, "") if a in "DE" else T.NEUTRAL.replace(a, "")[(i % 15):(i % 15) + 1])
+        for b in alts:
+            yield "site%d:%s>%s" % (i, a, b), seq[:i] + b + seq[i + 1:], four
+
+
 def variants_omega(seq):
     one = ("Omega",)
     yield "reversal", seq[::-1], one
@@ -63,7 +81,7 @@ def check_case(case):
         base = vec(seq, omega)
     except Exception as e:  # noqa
         return [{"key": "exception", "what": "%r on %s" % (e, seq), "case": case}], 0, None
-    gen = variants_omega(seq) if omega else variants_pattern(seq)
+    gen = variants_omega(seq) if omega else (variants_medium(seq) if case["kind"] == "medium" else variants_pattern(seq))
     for label, s2, names in gen:
         n += 1
         try:
@@ -83,6 +101,20 @@ def check_case(case):
 def shard(s):
     acc = core.Acc()
     kind, L, pre = s
+    if kind == "medium":
+        for w in spaces.window_complete_chunks(R.SYM, 6, (L,)):
+            seq = R.spell_base(w)
+            v, n, base = check_case({"kind": "medium", "seq": seq})
+            acc.states += 1 + n
+            acc.traces += 1
+            acc.transitions += (1 + n) * 5
+            acc.evaluations += n
+            if base is not None and base["kappa"] not in (-1, 0):
+                acc.nontrivial += 1
+                acc.out(("medium", round(base["kappa"], 9)))
+            for x in v:
+                acc.viol(x["key"], x["what"], x["case"])
+        return acc
     alpha = R.SYM if kind == "pattern" else "XO"
     for w in spaces.shard_words(alpha, L, pre):
         if kind == "pattern":
@@ -112,6 +144,7 @@ def run(tier, seed, t0):
     L, L2 = (6, 8) if tier == "quick" else (8, 11)
     shards = [("pattern",) + s for s in spaces.word_shards(R.SYM, 1, L, 3)]
     shards += [("omega",) + s for s in spaces.word_shards("XO", 1, L2, 4)]
+    shards += [("medium", L_, "") for L_ in ((29,) if tier == "quick" else (17, 29, 43, 71))]
     acc = core.pmap(shard, shards)
     return core.finish(
         PROP, tier, seed, acc, t0,
